@@ -31,6 +31,9 @@ RULE = ('Signature lattice vt.sigs (756 shapes: positional-only 0-2 x positional
         'when no call can be formed build must raise without invoking the callable. '
         'Non-trivial: the callable was invoked (or must be refused) and >=1 parameter was set; '
         'distinct = (callable, mode, set-pattern, *args length, extras).')
+RULE_ADDITIONS = (' Added by the rounds of seeded changes (DESIGN 9.7): ' +
+                  'misbind:unset-positional-before-set | g(a=1,b=2,/), cfg[1]=5 builds g(5) | fix: fill defaults / raise for gaps when flattening to *args; callables recording the call exactly as it arrives (raw_po, raw_mixed, raw_va); containers of a class derived from a named tuple')
+RULE = RULE + RULE_ADDITIONS
 ASSUMPTIONS = [
     'the direct call made by the harness with ArgModel.call_args() is the specification',
     'exceptions are compared as raises / does not raise, not by message',
